@@ -157,7 +157,9 @@ func RunStress(childTest string, f []string) []string {
 		detail += " races: " + strings.Join(keys, " ; ")
 	}
 	if os.Getenv("C05_KEEP") != "" {
-		_ = os.WriteFile(filepath.Join(os.Getenv("C05_KEEP"), "c05-"+f[1]+"-"+f[2]+".log"), []byte(so+"\n"+raceLog.String()), 0o644)
+		stacks, _ := os.ReadFile(filepath.Join(dir, "stacks.txt"))
+		_ = os.WriteFile(filepath.Join(os.Getenv("C05_KEEP"), "c05-"+f[1]+"-"+f[2]+"-"+f[len(f)-1]+".log"),
+			[]byte(so+"\n"+raceLog.String()+"\n"+string(stacks)), 0o644)
 	}
 
 	return []string{
